@@ -16,14 +16,20 @@ The model follows poulpy after the repairs docs/fixes/01–03 (gap region, rsh_a
    `bigNormalizeFusedCol64?/128?`) represent `res ± a·2^off` within one unit.  Proved here only for
    the forms that are "normalise into a temporary, then limb-wise ±" (`fused_fallback_value`:
    FFT64 always, NTT120 for different radices) under a no-wrap hypothesis on the limb sums.
-   `normalize_cross_value`: for `res_base2k ≠ a_base2k`, `normalizeCrossCoef bits rb rs off ab a` is
-   `TorusNear` `a·2^off` and exact with enough limbs.  Only `normalize_cross_value_partial` (the
-   all-shifted-out case) is proved; 0 disagreements / 0 oracle failures over all radix pairs 1..62².
+   `normalize_cross_value` (offset ≠ 0): for `res_base2k ≠ a_base2k` and an arbitrary offset,
+   `normalizeCrossCoef bits rb rs off ab a` is `TorusNear` `a·2^off` and exact with enough limbs.  Proved:
+   offset 0 for every pair of radices (`normalize_cross_value_offset0`, `normalize_value_offset0`,
+   `big_normalize128_value_offset0`) and the all-shifted-out case for every offset
+   (`normalize_cross_value_partial`).  The loop invariant (Lemmas/NormCross, NormCross2, NormCross3) is
+   offset independent; what is missing for offset ≠ 0 is the end-game arithmetic of the limb / bit
+   counters and the carry-propagation block of negative offsets.  0 disagreements / 0 oracle failures
+   over all radix pairs 1..62² and all offsets in the correspondence.
    `encode_decode`: `decodeCoefVec 64 b k (encodeCoefI64 b k size v) = ok v'` with `v' ≡ v (mod 2^k)` and
    `v' = v` when the balanced expansion fits.  Proved: the encode half (`encode_value`,
    `encode_frame_*`); the decode half is covered by the round-trip oracle over every (b,k). -/
 -/
 import Poulpy.Lemmas.NormFused
+import Poulpy.Lemmas.NormCross4
 
 namespace C08
 open NormL
@@ -404,9 +410,101 @@ theorem encode_frame_column (v : List Col) (n b col k : Nat) (data : List Int) (
 
 /-! ### cross radix -/
 
-/-- **cross-radix `vec_znx_normalize`, partial**: when the offset shifts the whole input out
-(`res_start = 0` in the Rust) the output is exactly zero — the only case closed by proof; see the
-FULL STATEMENT at the top of the file. -/
+/-- hypotheses of the cross-radix theorems: `bits ∈ {64,128}`, radices `1 ≤ ab, rb ≤ 62`, input limbs
+bounded by `H` with `H + 8 ≤ 2^(bits-2)` (i64: `|limb| ≤ 2^62 − 8`) -/
+theorem crossCtx_example : CrossCtx 64 15 25 2 0 (2 ^ 61) [2 ^ 61, -(2 ^ 61), 12345] :=
+  ⟨Or.inl rfl, by norm_num, by norm_num, by norm_num, by norm_num, by norm_num, by norm_num,
+    by intro x hx; simp at hx; rcases hx with rfl | rfl | rfl <;> norm_num⟩
+
+/-- **cross-radix `vec_znx_normalize` / `vec_znx_big_normalize` at offset 0** (what `glwe_decrypt` into
+another radix and `glwe_normalize` use; `bits = 64`: VecZnx / FFT64, `bits = 128`: NTT120), **any pair of
+radices `1..62`, any sizes, un-normalised input**: whenever the routine returns a result (the model's loop fuel was never
+exhausted in 3·10^6 corresponded cases), the output has `rs` limbs, represents
+`a` on the torus within one unit of its last limb, exactly when `ab·a_size ≤ rb·rs`.
+Digit range: every output limb satisfies `|d| ≤ 2^rb − 1` — cross-radix limbs are *not* always in the
+balanced range `[-2^(rb-1), 2^(rb-1))` (a limb assembled from several balanced pieces can reach down
+to `−(2^rb − 1)`); this is all the code guarantees, and all the property demands for different radices. -/
+theorem normalize_cross_value_offset0 {bits ab rb rs : Nat} {H : Int} {a : List Int}
+    (c : CrossCtx bits ab rb rs 0 H a) {out : List Int}
+    (h : normalizeCrossCoef bits rb rs 0 ab a = some out) :
+    out.length = rs ∧ (∀ d ∈ out, |d| ≤ 2 ^ rb - 1) ∧
+    TorusNear (valI rb out) (rb * rs) (valI ab a) (ab * a.length) ∧
+    (ab * a.length ≤ rb * rs → TorusEq (valI rb out) (rb * rs) (valI ab a) (ab * a.length)) :=
+  normalizeCrossCoef_value_off0 c h
+
+/-- non-vacuity: radix 2^15 → 2^25, three un-normalised limbs at the head-room boundary into two limbs -/
+example : ∃ out, normalizeCrossCoef 64 25 2 0 15 [2 ^ 61, -(2 ^ 61), 12345] = some out ∧
+    TorusNear (valI 25 out) (25 * 2) (valI 15 [2 ^ 61, -(2 ^ 61), 12345]) (15 * 3) := by
+  have h : normalizeCrossCoef 64 25 2 0 15 [2 ^ 61, -(2 ^ 61), 12345] = some [0, 395040] := by decide
+  exact ⟨_, h, (normalize_cross_value_offset0 crossCtx_example h).2.2.1⟩
+
+/-- cross-radix outputs are not always balanced: radix 2^2 → 2^4, `a = [-2,-2,-2,-2,-2,-2]` gives the limbs
+`[6, -10, -10]`; `-10` lies outside `[-8, 8)` but within `|d| ≤ 2^4 − 1` (and the value is exact) -/
+example : normalizeCrossCoef 64 4 3 0 2 [-2, -2, -2, -2, -2, -2] = some [6, -10, -10] ∧ ¬ Balanced 4 (-10) :=
+  ⟨by decide +kernel, by decide⟩
+
+/-- **`vec_znx_normalize` at offset 0, any radix pair** (the dispatch the Rust does): the value
+property C01 (`NormSpec`) and C02 (`normalize_phase_modulo_norm`) rely on. -/
+theorem normalize_value_offset0 {ab rb rs : Nat} {H : Int} {a : List Int}
+    (c : CrossCtx 64 ab rb rs 0 H a) {out : List Int} (h : normalizeCoef rb rs 0 ab a = some out) :
+    out.length = rs ∧ (∀ d ∈ out, |d| ≤ 2 ^ rb - 1) ∧
+    TorusNear (valI rb out) (rb * rs) (valI ab a) (ab * a.length) ∧
+    (ab * a.length ≤ rb * rs → TorusEq (valI rb out) (rb * rs) (valI ab a) (ab * a.length)) := by
+  unfold normalizeCoef at h
+  by_cases hr : rb = ab
+  · subst hr
+    simp only [if_true, Option.some.injEq] at h
+    subst h
+    have hv := normalize_inter_value c.headRoomH rs 0 a c.ha
+    simp only [Int.toNat_zero, pow_zero, mul_one, neg_zero, Nat.add_zero] at hv
+    have hb1 : 1 ≤ rb := c.hrb1
+    have hcast : rb * a.length ≤ rb * rs → (((rb * a.length : Nat) : Int) - 0 ≤ ((rb * rs : Nat) : Int)) := by
+      intro hx
+      have : ((rb * a.length : Nat) : Int) ≤ ((rb * rs : Nat) : Int) := by exact_mod_cast hx
+      linarith
+    refine ⟨hv.1, ?_, hv.2.2.1, fun hx => hv.2.2.2 (hcast hx)⟩
+    intro d hd
+    have := (hv.2.1 d hd).abs_le
+    have h2 := half_le_full hb1
+    have h3 : (1 : Int) ≤ 2 ^ (rb - 1) := by
+      have := two_pow_le (Nat.zero_le (rb - 1)); simpa using this
+    linarith
+  · rw [if_neg hr] at h
+    exact normalize_cross_value_offset0 c h
+
+/-- **NTT120 `vec_znx_big_normalize` at offset 0, any radix pair** (`i128` accumulator) -/
+theorem big_normalize128_value_offset0 {ab rb rs : Nat} {H : Int} {a : List Int}
+    (c : CrossCtx 128 ab rb rs 0 H a) {out : List Int} (h : bigNormalizeCoef128 rb rs 0 ab a = some out) :
+    out.length = rs ∧ (∀ d ∈ out, |d| ≤ 2 ^ rb - 1) ∧
+    TorusNear (valI rb out) (rb * rs) (valI ab a) (ab * a.length) ∧
+    (ab * a.length ≤ rb * rs → TorusEq (valI rb out) (rb * rs) (valI ab a) (ab * a.length)) := by
+  by_cases hr : rb = ab
+  · subst hr
+    have hb63 : rb ≤ 63 := by have := c.hrb; omega
+    have hi := big_normalize128_inter_value c.headRoomH hb63 rs 0 a c.ha
+    rw [hi.1] at h
+    simp only [Option.some.injEq] at h
+    subst h
+    have hv := normalize_inter_value c.headRoomH rs 0 a c.ha
+    simp only [Int.toNat_zero, pow_zero, mul_one, neg_zero, Nat.add_zero] at hv
+    have hb1 : 1 ≤ rb := c.hrb1
+    have hcast : rb * a.length ≤ rb * rs → (((rb * a.length : Nat) : Int) - 0 ≤ ((rb * rs : Nat) : Int)) := by
+      intro hx
+      have : ((rb * a.length : Nat) : Int) ≤ ((rb * rs : Nat) : Int) := by exact_mod_cast hx
+      linarith
+    refine ⟨hv.1, ?_, hv.2.2.1, fun hx => hv.2.2.2 (hcast hx)⟩
+    intro d hd
+    have := (hv.2.1 d hd).abs_le
+    have h2 := half_le_full hb1
+    have h3 : (1 : Int) ≤ 2 ^ (rb - 1) := by
+      have := two_pow_le (Nat.zero_le (rb - 1)); simpa using this
+    linarith
+  · unfold bigNormalizeCoef128 at h
+    rw [if_neg hr] at h
+    exact normalize_cross_value_offset0 c h
+
+/-- when the offset shifts the whole input out (`res_start = 0` in the Rust) the output is exactly zero,
+for every offset -/
 theorem normalize_cross_value_partial (rb rs ab : Nat) (off : Int) (a : List Int)
     (h : clampNat ((a.length * ab : Nat) - (splitOffset ab off).2 * ab) (rs * rb) = 0) :
     normalizeCrossCoef 64 rb rs off ab a = some (List.replicate rs 0) := by
